@@ -1,4 +1,4 @@
-import MorfuseModel.Emit.SimNest
+import MorfuseModel.Emit.SimNeg
 /-!
 # Simulation between the two passes: the remaining constructors and the assembly
 -/
@@ -57,9 +57,6 @@ theorem ms_nil   : MSP (.nil ) := by
   ms_walk
 
 theorem ms_null   : MSP (.null ) := by
-  ms_walk
-
-theorem ms_f1 (op : Nat) (x : Node) (ih1 : MSP x) : MSP (.f1 op x) := by
   ms_walk
 
 theorem ms_f2 (op : Nat) (a : Node) (b : Node) (ih1 : MSP a) (ih2 : MSP b) : MSP (.f2 op a b) := by
